@@ -11,7 +11,7 @@ import (
 func init() {
 	core.Register(&core.Info{
 		ID: "C16", Level: "exploration",
-		Rule: "ten case families over one index space (families five to eight appended by the audit of the workload's dimensions, the last two in the fourth round; earlier families keep their case numbers). names: (measurement, related measurement) pairs through GCETcbObjectName (SNP, TDX) and GCETcbURL against the monitor's own name model and inverse; " +
+		Rule: "twelve case families over one index space (families five to eight appended by the audit of the workload's dimensions, nine and ten in the fourth round, the last two in the fifth; earlier families keep their case numbers). names: (measurement, related measurement) pairs through GCETcbObjectName (SNP, TDX) and GCETcbURL against the monitor's own name model and inverse; " +
 			"events: a real snapshot endorse run of a generated image, its <image>.evts.pb decoded by an independent SP800-155 decoder and by the repository's, then fed through a generated boot event log into extract.Endorsement; " +
 			"precedence: one point of the product {event-log shape} x {manufacturer filter} x {quote format x entry} x {provider} x {getter} x {forced fetch}, its event log kept on a drawn medium (regular file, named pipe, symbolic link to either), run through extract.Endorsement (twice) and, for a third, through the extract command; " +
 			"the checker works on the recorded URL list and the returned bytes; confine: (GUID, UCS-2 name) through EfiVarFSReader.ReadVariable and through an event-log variable locator against a scratch efivarfs tree with symlinks and outside canaries; " +
@@ -20,7 +20,9 @@ func init() {
 			"edges: recognised quote formats whose measurement field is 0/1/47/49/64/96 bytes long (supplied and from the provider), equivalent encodings of documented formats (protobuf field order, padded length varints, upper-case hex, base64 in lines), events whose platform manufacturer is not their firmware manufacturer and a foreign manufacturer filter, the efivarfs root and event-log path respelled (trailing / doubled slash, dot and dot-dot segments, directory symlink, relative; a directory as log), variable names that lead into a directory next to the root whose name starts with the root's; " +
 			"events-again: 2-3 snapshot endorse runs of different images into one version-control double (same or another image name) from one kept endorse.Context whose Image is re-assigned, or from fresh Contexts, each run's events judged against that run's image; " +
 			"surroundings: an event log with variable locators whose variables are whole or faulty under the root (absent, shorter than the attribute header, a directory, a dangling relative / absolute link; the root itself missing, a regular file, empty) while files and directories of the very name asked for lie AROUND the root (parent directory and the one above, vars/<name>-<guid>/data and raw_var of the legacy sysfs layout, a directory efivarfs, a backup copy of the root), the root standing directly in the case directory, one below, or as under /sys/firmware/efi, spelled canonically or not - every variable read through EfiVarFSReader.ReadVariable, the log through extract.Endorsement (twice) and for a third through the command's --efivarfs; the static tree of the confine family has the same legacy-layout files next to its root; " +
-			"defaults: 2-5 independent users in one process plus one with no evidence at all, one after the other or all at the same time (taking, assigning, extracting in three phases), each of which takes extract.DefaultOptions() and assigns only the fields in which it differs from the documented defaults (the getter always; the log location left alone where the host has no kernel event log and the user's log is a missing file), every call judged by the precedence rules on its user's sources. " +
+			"defaults: 2-5 independent users in one process plus one with no evidence at all, one after the other or all at the same time (taking, assigning, extracting in three phases), each of which takes extract.DefaultOptions() and assigns only the fields in which it differs from the documented defaults (the getter always; the log location left alone where the host has no kernel event log and the user's log is a missing file), every call judged by the precedence rules on its user's sources; " +
+			"validate-func: one function value from verify.SNPValidateFunc / SNPFamilyValidateFunc (GCE family ids and a foreign one) called 1-4 times with attestations whose report is absent or whose measurement field is 0...96 bytes long, the certificate-table entry absent / empty / filled, with and without Options.Endorsement, getter answering / failing / nil - judged on the recorded URL list only (every request is the object of this call's 48-byte measurement; none without one; none with the endorsement in hand); the same attestation through gcetcbendorsement.SevValidate is observed and counted, not judged; " +
+			"events-together: 3-8 snapshot endorse runs of different images at the same time, each with its own Context, keys and 1-12 version-control doubles in Context.VCSs, the runs' random readers handing out their bytes in step (four fifths) or freely, every <image>.evts.pb judged by the rules of the events family against the image of its run. " +
 			"non-trivial = distinct (family, input class, outcome class) cells in which an oracle rule had something to decide",
 		Assumptions: []string{
 			"hex(measurement) in the object name is lower case (as the published bucket objects are); the name model is family prefix ovmf_x64_csm / sevsnp|tdx / hex .binarypb",
@@ -39,6 +41,8 @@ func init() {
 			"the efivarfs root and the event-log location are places, not spellings: a trailing or doubled slash, dot segments, a directory symlink on the way or a relative path name the same root / log",
 			"a faulty variable (absent, too short, not a regular file, a link to nothing, no root) makes the event log yield nothing, whatever lies around the root: nothing outside the root is the variable, so the next local source answers; files around the root are planted before the call and never changed during it",
 			"a value handed out by extract.DefaultOptions() stands for the documented defaults in every field its user did not assign: no quote (the provider is asked), no provider, no forced fetch, the GCE firmware manufacturer as filter, /sys/kernel/security/tpm0/binary_bios_measurements as event-log location; what other users of the process did with the values handed to THEM is not a source of this user's call. The default getter is never left in place (it would reach for the real network)",
+			"the function go-sev-guest is given for the GCE certificate-table entry (verify.SNPValidateFunc) discovers the endorsement like the extractor does: the entry it is handed, or the caller's Options.Endorsement, is the local evidence and no request goes out while one is in hand; otherwise the only request is the object of the 48-byte measurement of the attestation of THAT call; for a foreign family id only bucket, technology directory and hex name are judged; acceptance is not judged here",
+			"endorse runs at the same time have values of their own (Context, keys, stores, random reader); a random reader is the caller's and may block until it has bytes to give - here until the other runs under way ask too; each run's events are judged by the sequential rules, nothing is demanded of the interleaving",
 			"the strace monitor runs in the thorough tier only and is skipped with a note when strace cannot start",
 		},
 		ShardsQuick: 8, ShardsThor: 16, TimeoutS: 600, TimeoutThor: 3000, Run: run,
@@ -144,6 +148,30 @@ func run(c *core.Ctx) {
 			runDefaults(c, sc, i, &r4)
 		}
 	}
+	base += nDef
+	// families appended in the fifth round (round5.go)
+	var r5 round5Stats
+	nVf, nTog := c.N(1500, 15000), c.N(72, 720)
+	for k := 0; k < nVf; k++ {
+		if i := base + k; c.Mine(i) {
+			runValidateFn(c, i, &r5)
+		}
+	}
+	base += nVf
+	for k := 0; k < nTog; k++ {
+		if i := base + k; c.Mine(i) {
+			runEventsTogether(c, i, &r5)
+		}
+	}
+	c.Count("validate-func/calls-judged", r5.vfCalls)
+	c.Count("validate-func/later-calls-of-one-function-value", r5.vfLaterCalls)
+	c.Count("validate-func/no-request-for-a-measurement-that-is-not-48-bytes(getter-present,no-endorsement-in-hand)", r5.vfOddNoFetch)
+	c.Count("validate-func/no-request-with-the-endorsement-in-hand(getter-present)", r5.vfLocalNoFetch)
+	c.Count("validate-func/requested-the-object-of-its-measurement", r5.vfFullFetched)
+	c.Count("validate-func/SevValidate/calls", r5.svCalls)
+	c.Count("events-together/runs-judged", r5.etRuns)
+	c.Count("events-together/events-files-judged", r5.etStores)
+	c.Count("events-together/draws-of-randomness-made-by-two-or-more-runs-together", r5.etDrawsTogether)
 	c.Count("surroundings/files-planted-around-the-root", r4.nbDecoys)
 	c.Count("surroundings/reads-of-a-faulty-variable-refused", r4.nbReadsFaulted)
 	c.Count("surroundings/reads-of-a-whole-variable-returned-from-inside", r4.nbReadsInside)
@@ -194,6 +222,8 @@ func run(c *core.Ctx) {
 	c.Floor("surroundings/certificate-table-entry-returned-after-a-faulty-variable", r4.nbEntryAfter > 0)
 	c.Floor("defaults/users-of-DefaultOptions-judged-with-fields-left-alone-that-another-user-had-assigned", r4.defUsers > 0 && r4.defLeftAfterSet > 0 && r4.defBare > 0)
 	c.Floor("defaults/users-at-the-same-time", r4.defTogether > 0)
+	c.Floor("validate-func/odd-measurements-and-entries-in-hand-run-with-a-getter-and-a-whole-measurement-requested", r5.vfOddNoFetch > 0 && r5.vfLocalNoFetch > 0 && r5.vfFullFetched > 0 && r5.vfLaterCalls > 0)
+	c.Floor("events-together/runs-at-the-same-time-judged", r5.etBatches > 0 && r5.etRuns > 0 && r5.etStores > r5.etRuns && r5.etDrawsTogether > 0)
 }
 
 // probeNilProvider records (as a note, never a verdict) what the extract command does on a host
